@@ -170,11 +170,105 @@ def fmt_kind(expr):
     return "raw"
 
 
+def positional_rule(repo, res, mod):
+    """X-NUM on float_to_str itself: a value that is returned through str(f) / repr(f) (possibly cut or re-joined) must
+    be guarded so that str(f) is positional there: either by the textual test ('e' in str(f)) or by a numeric guard
+    that keeps every magnitude for which Python's float repr switches to exponent notation (< 1e-4, >= 1e16) away.
+    The numeric guard is decided exactly by evaluating it on the representatives of the regions its thresholds cut."""
+    from ..core import canon
+    from ..dataflow import ReachingDefs
+    from ..flowtools import backward_slice, result_cases
+
+    fn = mod.functions.get("float_to_str")
+    if fn is None:
+        raise AnalysisError("float_to_str missing")
+    p = fn.args.args[0].arg
+    rd = ReachingDefs(fn)
+    n_str = 0
+    for c in result_cases(mod, fn, rd, [p]):
+        if c.value is None:
+            continue
+        txt = canon(c.value, rd, c.stmt, [p])
+        via_str = any(("%s(%s)" % (f, p)) in txt for f in ("str", "repr"))
+        if not via_str:
+            continue
+        n_str += 1
+        textual = any(("'e' in str(%s)" % p in t or "'e' in repr(%s)" % p in t or "'e' in str(%s).lower()" % p in t) and not pol for t, pol, _n in c.guards) or any(("'e' not in str(%s)" % p) in t and pol for t, pol, _n in c.guards)
+        witness = None
+        if not textual:
+            consts = {0.0, 1e-4, 1e16}
+            for _t, _pol, node in c.guards:
+                for x in ast.walk(node):
+                    if isinstance(x, ast.Constant) and isinstance(x.value, (int, float)) and not isinstance(x.value, bool):
+                        consts.add(abs(float(x.value)))
+            cand = set()
+            for k in consts:
+                for m in (k, k * (1 - 1e-9), k * (1 + 1e-9), k / 3.0, k * 3.0):
+                    cand |= {m, -m}
+            cand |= {5e-324, 1e-300, 1e300, 123.456, 1.0}
+
+            def holds(node, v):
+                """True / False / None (not a numeric test of the parameter)"""
+                if isinstance(node, ast.BoolOp):
+                    vals = [holds(x, v) for x in node.values]
+                    if isinstance(node.op, ast.And):
+                        return False if any(x is False for x in vals) else (None if any(x is None for x in vals) else True)
+                    return True if any(x is True for x in vals) else (None if any(x is None for x in vals) else False)
+                if isinstance(node, ast.UnaryOp) and isinstance(node.op, ast.Not):
+                    r = holds(node.operand, v)
+                    return None if r is None else not r
+                if isinstance(node, ast.Compare):
+                    def num(e):
+                        if isinstance(e, ast.Constant) and isinstance(e.value, (int, float)) and not isinstance(e.value, bool):
+                            return float(e.value)
+                        if isinstance(e, ast.Name) and e.id == p:
+                            return v
+                        if isinstance(e, ast.Call) and norm(e.func) in ("abs", "np.abs", "math.fabs", "np.fabs", "np.absolute") and len(e.args) == 1 and isinstance(e.args[0], ast.Name) and e.args[0].id == p:
+                            return abs(v)
+                        if isinstance(e, ast.UnaryOp) and isinstance(e.op, ast.USub):
+                            r = num(e.operand)
+                            return None if r is None else -r
+                        return None
+                    vals = [num(node.left)] + [num(x) for x in node.comparators]
+                    if any(x is None for x in vals):
+                        return None
+                    ok = True
+                    for a_, op, b_ in zip(vals, node.ops, vals[1:]):
+                        r = {ast.Lt: a_ < b_, ast.LtE: a_ <= b_, ast.Gt: a_ > b_, ast.GtE: a_ >= b_, ast.Eq: a_ == b_, ast.NotEq: a_ != b_}.get(type(op))
+                        if r is None:
+                            return None
+                        ok = ok and r
+                    return ok
+                return None
+
+            for v in sorted(cand, key=abs):
+                if v != v or abs(v) == float("inf"):
+                    continue
+                reach = True
+                for _t, pol, node in c.guards:
+                    r = holds(node, v)
+                    if r is not None and r != pol:
+                        reach = False
+                        break
+                if reach and "e" in repr(float(v)):
+                    witness = v
+                    break
+        res.check("X-NUM", "float_to_str: the branch returning %s is only reached when str(%s) is positional" % (txt[:50], p), textual or witness is None, mod, c.stmt, "float_to_str returns %s for %s = %r, whose str() is %r" % (txt[:60], p, witness, repr(float(witness)) if witness is not None else ""), "a magnitude for which Python prints exponent notation reaches the str()-based branch: the text (e.g. 5e-05, or a cut fragment of it) is not an xs:decimal", qualname="float_to_str")
+    if n_str == 0:
+        res.ok("X-NUM", "float_to_str never returns text derived from str()/repr() of its argument")
+
+
 def run(repo, res, tier):
+    res.rule("X-FRESH", "every public write method starts from a fresh document before it fills it", 2)
+    from .c15 import fresh_document_records
+
+    for qn_, f_, ok_, mod_, site_, in_fn in fresh_document_records(repo, "commonroad/common/writer/file_writer_xml.py", "XMLFileWriter"):
+        res.check("X-FRESH", "%s: self.%s re-created before it is filled" % (qn_, f_), ok_, mod_, site_, "%s fills self.%s (%s in %s) without re-creating it first" % (qn_, f_, norm(site_)[:60], in_fn), "elements appended by an earlier write call are still under the root: the second file of a writer repeats location, tags and every id, which the schema (order, xs:key) rejects", qualname=qn_)
     res.rule("X-NAME", "emitted elements and attributes are allowed by the schema type of their parent", 80)
     res.rule("X-ORDER", "children of xs:sequence types are emitted in schema order", 15)
     res.rule("X-REQ", "required children / attributes are emitted", 30)
     res.rule("X-NUM", "decimal-typed text is produced by a positional formatter", 18)
+    positional_rule(repo, res, repo.mod("commonroad/common/writer/file_writer_xml.py"))
     res.rule("X-ENUM", "enumeration-typed text is the value of the matching enum", 8)
     cx = Ctx(repo, res)
     w, xsd, mod = cx.w, cx.xsd, cx.mod
@@ -298,7 +392,7 @@ def run(repo, res, tier):
             mx = -1
             mx_line = -1
             for i, tg, rec in idx:
-                line = (getattr(rec.origin, "lineno", 0), getattr(rec, "unroll", 0))
+                line = (getattr(rec.origin, "lineno", 0), getattr(rec, "unroll", 0), getattr(rec.origin, "_uidx", ()))
                 if i < mx and line != mx_line:
                     bad = (tg, rec)
                     break
